@@ -1,5 +1,166 @@
-import BiotiteModel.Model.C11Msa
+import BiotiteModel.Proofs.C11
 import BiotiteModel.Gen.C11
+/-!
+# C11 — property theorems (alignment traces through every conversion; progressive MSA)
+
+Only property statements and non-vacuity examples; helper lemmas are in `Proofs/C11*.lean`.
+All theorems quantify over traces / op lists / guide trees of every size.
+-/
 namespace BiotiteModel.C11
-theorem C11_placeholder : aggregate [] = [] := rfl
+open BiotiteModel
+
+/-! ## gapped strings, code matrices, FASTA -/
+
+/-- Gapped strings and back, per sequence `k`: if the trace visits positions `s, s+1, …` of the sequence
+(contiguous, e.g. every trace produced by an aligner or a parser) and no symbol is the gap character, then
+numbering the non-gap characters of `_gapped_str(k)` from `s` (`trace_from_strings` starts at `s = 0`) gives the
+sequence's trace entries back, and removing the gap characters spells the covered part of the sequence. -/
+theorem C11_strings_roundtrip (seq : List Char) (hsym : ∀ c ∈ seq, c ≠ '-') (k : Nat) (t : Trace)
+    (cs : List Char) (s m : Nat) (h : gappedStr seq t k = .ok cs) (hcov : covered t k = List.range' s m) :
+    numberRow s cs = t.map (fun c => (c[k]?).join) ∧
+    stripChars cs = (covered t k).filterMap (fun j => seq[j]?) :=
+  gappedStr_number seq hsym k t cs s m h hcov
+
+/-- FASTA round trip (set_alignment ∘ get_alignment), per sequence: for a trace that covers the whole sequence
+from position 0 the re-parsed row is the original row and the re-parsed sequence is the original sequence. -/
+theorem C11_fasta_roundtrip (seq : List Char) (hsym : ∀ c ∈ seq, c ≠ '-') (k : Nat) (t : Trace)
+    (cs : List Char) (h : gappedStr seq t k = .ok cs) (hcov : covered t k = List.range seq.length) :
+    numberRow 0 cs = t.map (fun c => (c[k]?).join) ∧ stripChars cs = seq := by
+  have := gappedStr_number seq hsym k t cs 0 seq.length h (by rw [hcov, List.range_eq_range'])
+  refine ⟨this.1, ?_⟩
+  rw [this.2, hcov, range_filterMap_get]
+
+/-- `get_codes` / `get_symbols` rows: same gap pattern as the trace, and without the gaps they spell the
+covered part of the sequence (codes or symbols: `α` is arbitrary). -/
+theorem C11_codes_symbols {α : Type} (seq : List α) (k : Nat) (t : Trace) (row : List (Option α))
+    (h : mapE (codeAt seq k) t = .ok row) :
+    row.map Option.isSome = t.map (fun c => ((c[k]?).join).isSome) ∧
+    row.filterMap id = (covered t k).filterMap (fun j => seq[j]?) :=
+  codes_row seq k t row h
+
+example : gappedStr ['A', 'C', 'G', 'T'] [[some 1, some 0], [none, some 1], [some 2, none]] 0 = .ok ['C', '-', 'G'] := by decide
+example : covered [[some 1, some 0], [none, some 1], [some 2, none]] 0 = List.range' 1 2 := by decide
+example : numberRow 1 ['C', '-', 'G'] = [some 1, none, some 2] := by decide
+
+/-! ## helpers keep the trace invariant -/
+
+/-- `remove_gaps`, column slicing (`alignment[a:b]`) and `remove_terminal_gaps` return valid traces, and
+`remove_gaps` leaves no gap. -/
+theorem C11_helpers_valid {n : Nat} {t : Trace} (h : Valid n t) :
+    Valid n (removeGaps t) ∧ (∀ c ∈ removeGaps t, ∀ x ∈ c, x ≠ none) ∧ (∀ a b, Valid n (sliceCols t a b)) ∧
+    (∀ t', removeTerminalGaps n t = .ok t' → Valid n t') :=
+  ⟨removeGaps_valid h, removeGaps_noGap t, fun a b => sliceCols_valid a b h, fun _ hr => removeTerminalGaps_valid h hr⟩
+
+example : validB 2 [[some 0, none], [some 1, some 0], [none, some 1]] = true := by decide
+example : removeTerminalGaps 2 [[some 0, none], [some 1, some 0], [none, some 1]] = .ok [[some 1, some 0]] := by decide
+
+/-! ## CIGAR -/
+
+/-- `_aggregate_consecutive` is a lossless run-length encoding with maximal runs of positive length. -/
+theorem C11_aggregate (ops : List Op) :
+    expand (aggregate ops) = ops ∧ NoAdj (aggregate ops) ∧ ∀ p ∈ aggregate ops, 0 < p.2 :=
+  ⟨expand_aggregate ops, aggregate_noAdj ops, aggregate_pos ops⟩
+
+/-- `_op_tuples_from_cigar(_cigar_from_op_tuples(ops)) = ops` for every list of operations and counts. -/
+theorem C11_cigar_string (ops : List (Op × Nat)) : parseCigar (printOps ops) = .ok ops := parse_print ops
+
+/-- Reader ∘ writer = identity on the written trace, for **every** combination of `hard_clip`,
+`distinguish_matches`, `introns` and `include_terminal_gaps`: whenever `write_alignment_to_cigar` accepts a
+pairwise trace with consecutive indices and no double gap (`Follows`), `read_alignment_from_cigar` at the first
+reference position of the written part returns exactly the written part (the trace without terminal segment
+gaps unless they are included); with hard clipping the segment indices are relative to the clipped segment. -/
+theorem C11_cigar_roundtrip (o : WOpts) (refSeq segSeq : List Nat) (t : PTrace) (ops : List (Op × Nat))
+    (hf : ∃ rp sp, Follows rp sp t) (hw : writeOps o refSeq segSeq t = .ok (some ops)) :
+    ∃ t' a, (if o.itg then .ok t else trimSeg t) = .ok t' ∧ firstSeg t' = some a ∧
+      readOps ((firstRef t').getD 0) ops = .ok (if o.hc then shiftSeg a t' else t') :=
+  cigar_roundtrip o refSeq segSeq t ops hf hw
+
+/-- the same through the CIGAR *string* -/
+theorem C11_cigar_roundtrip_string (o : WOpts) (refSeq segSeq : List Nat) (t : PTrace) (ops : List (Op × Nat))
+    (hf : ∃ rp sp, Follows rp sp t) (hw : writeOps o refSeq segSeq t = .ok (some ops)) :
+    ∃ t' a, (if o.itg then .ok t else trimSeg t) = .ok t' ∧ firstSeg t' = some a ∧
+      readCigar ((firstRef t').getD 0) (printOps ops) = .ok (if o.hc then shiftSeg a t' else t') := by
+  obtain ⟨t', a, h1, h2, h3⟩ := cigar_roundtrip o refSeq segSeq t ops hf hw
+  exact ⟨t', a, h1, h2, by simp [readCigar, parse_print, h3]⟩
+
+-- non-vacuity: the docstring example of cigar.py in small (terminal gaps, a deletion inside an intron, clipped ends)
+example : writeOps ⟨[(3, 4)], true, true, false⟩ [0, 1, 2, 3, 0, 1, 2] [3, 2, 3, 1, 1]
+    [(some 1, none), (some 2, some 1), (some 3, none), (some 4, some 2), (none, some 3), (some 5, none)]
+    = .ok (some [(.H, 1), (.EQ, 1), (.N, 1), (.X, 1), (.I, 1), (.H, 1)]) := by decide
+example : Follows 1 1 [(some 1, none), (some 2, some 1), (some 3, none), (some 4, some 2), (none, some 3), (some 5, none)] := by
+  simp [Follows]
+example : readOps 2 [(.H, 1), (.EQ, 1), (.N, 1), (.X, 1), (.I, 1), (.H, 1)]
+    = .ok [(some 2, some 0), (some 3, none), (some 4, some 1), (none, some 2)] := by decide
+example : parseCigar ['4', 'S', '1', '2', 'M', '2', 'D'] = .ok [(.S, 4), (.M, 12), (.D, 2)] := by decide
+
+/-! ## regenerated tables (cigar.py) -/
+
+/-- `CigarOp` and `_str_to_op` are the model's table: a bijection between the ten symbols and the ten members
+(order of the source dict is irrelevant). -/
+theorem C11_gen_symbols :
+    (∀ e ∈ Gen.C11.strToOp, ∃ o ∈ Op.all, e = (o.symbol, o.name)) ∧
+    (∀ o ∈ Op.all, (o.symbol, o.name) ∈ Gen.C11.strToOp) ∧ Gen.C11.strToOp.length = Op.all.length ∧
+    (∀ e ∈ Gen.C11.cigarOps, ∃ o ∈ Op.all, e = (o.name, o.code)) ∧
+    (∀ o ∈ Op.all, (o.name, o.code) ∈ Gen.C11.cigarOps) ∧ Gen.C11.cigarOps.length = Op.all.length ∧
+    (Op.all.map Op.symbol).Nodup ∧ (Op.all.map Op.code).Nodup := by decide
+
+def kindRow : Kind → Option (Bool × Bool × Bool × Bool × Bool)
+  | .both => some (true, true, false, false, false)
+  | .segOnly => some (false, true, false, true, false)
+  | .refOnly => some (true, false, false, false, true)
+  | .softClip => some (false, true, true, false, false)
+  | .hardClip => some (false, false, true, false, false)
+  | .unsupported => none
+
+/-- which operations consume reference / segment, are clipped, or are rejected: the branches of
+`read_alignment_from_cigar` are the model's `Op.kind`. -/
+theorem C11_gen_reader : ∀ o ∈ Op.all, (Gen.C11.readerTable.lookup o.name) = kindRow o.kind := by decide
+
+/-- every operation the writer can emit is one the reader accepts as a column, and the clip operations are
+hard/soft clip in that order. -/
+theorem C11_gen_writer :
+    (∀ e ∈ Gen.C11.writerTable, ∃ o ∈ Op.all, o.name = e.2 ∧ (o.kind = .both ∨ o.kind = .segOnly ∨ o.kind = .refOnly)) ∧
+    Gen.C11.clipOp.2 = (Op.H.name, Op.S.name) := by decide
+
+/-! ## progressive multiple alignment -/
+
+/-- `_replace_gaps` along one side of a valid global trace keeps the row's gap-stripped content. -/
+theorem C11_msa_rows (g : Nat) (row : Row) (tr : List (Option Nat)) (h : tr.filterMap id = List.range row.length) :
+    ∃ r, replaceGaps g tr row = .ok r ∧ r.length = tr.length ∧ strip g r = strip g row :=
+  replaceGaps_strip g row tr h
+
+/-- the merge step: two sub-MSAs that spell their inputs and have no all-gap column, merged along a valid global
+pairwise trace, give a sub-MSA (width = trace length) that spells its inputs and has no all-gap column. -/
+theorem C11_msa_no_allgap {g : Nat} {seqs : List Row} {w1 w2 : Nat} {o1 o2 : List Nat} {r1 r2 : List Row} {tr : PTrace}
+    (h1 : Inv g seqs w1 o1 r1) (h2 : Inv g seqs w2 o2 r2) (hv : GlobalValid tr w1 w2) :
+    ∃ rows, mergeGroups g tr r1 r2 = .ok rows ∧ Inv g seqs tr.length (o1 ++ o2) rows :=
+  merge_inv h1 h2 hv
+
+/-- by induction over any guide tree: `_progressive_align` returns the tree's leaf list as order and rows that
+spell the inputs, have one width and no all-gap column. -/
+theorem C11_msa_progressive {al : List Nat → List Nat → PTrace} {g : Nat} {seqs : List Row}
+    (hin : ∀ s ∈ seqs, ∀ c ∈ s, c ≠ g) (tree : GTree) (hv : AllValid al g seqs tree)
+    (hl : ∀ i ∈ tree.leaves, i < seqs.length) :
+    ∃ rows w, progressive al g seqs tree = .ok (tree.leaves, rows) ∧ Inv g seqs w tree.leaves rows :=
+  progressive_inv hin tree hv hl
+
+/-- `align_multiple`: for every guide tree that contains every sequence exactly once and every `align_optimal`
+that returns valid global traces, the result has `order` = the tree's leaf list (a permutation), the sequences
+come back in **input order** (`argsort(order)` undoes the tree order), and row `k` of the trace visits positions
+`0 … len(input k) − 1` of input `k` in order (one row per input; gap-stripped rows = inputs). -/
+theorem C11_msa_invariant {al : List Nat → List Nat → PTrace} {g : Nat} {seqs : List Row} (tree : GTree)
+    (hin : ∀ s ∈ seqs, ∀ c ∈ s, c ≠ g) (hv : AllValid al g seqs tree)
+    (hperm : tree.leaves.Perm (List.range seqs.length)) :
+    ∃ res, alignMultiple al g seqs tree = .ok (some res) ∧ res.order = tree.leaves ∧ res.seqs = seqs ∧
+      All₂ (fun s row => row.filterMap id = List.range s.length) seqs res.rows :=
+  msa_invariant tree hin hv hperm
+
+-- non-vacuity: two sequences, one merge
+example : GlobalValid [(some 0, some 0), (some 1, none), (some 2, some 1)] 3 2 := by
+  refine ⟨by decide, by decide, ?_⟩
+  intro c hc; simp at hc; rcases hc with rfl | rfl | rfl <;> simp
+example : mergeGroups 4 [(some 0, some 0), (some 1, none), (some 2, some 1)] [[0, 1, 2]] [[0, 2]]
+    = .ok [[0, 1, 2], [0, 4, 2]] := by decide
+example : (GTree.node (.leaf 1) (.leaf 0)).leaves.Perm (List.range 2) := by decide
+
 end BiotiteModel.C11
